@@ -36,6 +36,7 @@
 #include <vector>
 #include <iostream>
 #include <stdio.h>
+#include <string.h>
 
 using namespace MASA;
 
@@ -91,9 +92,10 @@ extern "C" int masa_select_mms(const char* function_user_wants)
 
 extern "C" int masa_get_name(char* name)
 {
-  std::string fuw(name);
-  masa_get_name<double>(&fuw);
-  return 0;
+  std::string fuw;
+  int err = masa_get_name<double>(&fuw);
+  strcpy(name,fuw.c_str()); // hand the name back to the caller's buffer
+  return err;
 }
 
 extern "C" int masa_get_dimension(int* dim)
@@ -110,26 +112,22 @@ extern "C" int masa_list_mms()
 
 extern "C" int masa_purge_default_param()
 {
-  masa_purge_default_param<double>();
-  return 0;
+  return masa_purge_default_param<double>();
 }
 
 extern "C" int masa_init_param()
 {
-  masa_init_param<double>();
-  return 0;
+  return masa_init_param<double>();
 }
 
 extern "C" int masa_sanity_check()
 {
-  masa_sanity_check<double>();
-  return 0;
+  return masa_sanity_check<double>();
 }
 
 extern "C" int masa_display_param()
 {
-  masa_display_param<double>();
-  return 0;
+  return masa_display_param<double>();
 }
 
 extern "C" int masa_display_array()
@@ -148,7 +146,7 @@ extern "C" int masa_get_array(const char* param,int *n,double* array)
 {
   // grab vector
   std::vector<double> vec;
-  masa_get_vec<double>(param,vec);
+  int err = masa_get_vec<double>(param,vec);
 
   // copy size to 'n'
   (*n) = int(vec.size());
@@ -159,7 +157,7 @@ extern "C" int masa_get_array(const char* param,int *n,double* array)
     array[i]=vec[i];
   }
 
-  return 0;
+  return err;
 }
 
 extern "C" void masa_set_param(const char* param,double val)
